@@ -2873,6 +2873,7 @@ func (db *DatabaseCollectionWithUser) updateAndReturnDoc(ctx context.Context, do
 	var oldBodyJSON string                                       // Stores previous revision body for use by DocumentChangeEvent
 	var createNewRevIDSkipped bool
 	var previousAttachments map[string][]string
+	var failedBeforeWrite bool // the last invocation of the update callback failed: no document write was attempted after it
 
 	// Update the document
 	inConflict := false
@@ -2899,6 +2900,7 @@ func (db *DatabaseCollectionWithUser) updateAndReturnDoc(ctx context.Context, do
 		}
 		casOut, err = db.dataStore.WriteUpdateWithXattrs(ctx, key, db.syncGlobalSyncMouAndUserXattrKeys(), initialExpiry, existingDoc, opts, func(currentValue []byte, currentXattrs map[string][]byte, cas uint64) (updatedDoc sgbucket.UpdatedDoc, err error) {
 			// Be careful: this block can be invoked multiple times if there are races!
+			defer func() { failedBeforeWrite = err != nil }()
 			if doc, err = db.unmarshalDocumentWithXattrs(ctx, docid, currentValue, currentXattrs, cas, DocUnmarshalAll); err != nil {
 				return
 			}
@@ -3022,8 +3024,9 @@ func (db *DatabaseCollectionWithUser) updateAndReturnDoc(ctx context.Context, do
 
 	// If the WriteUpdate didn't succeed, check whether there are unused, allocated sequences that need to be accounted for
 	if err != nil {
-		// For timeout errors, the write may or may not have succeeded so we cannot release the sequence as unused
-		if !base.IsTimeoutError(err) {
+		// For timeout errors, the write may or may not have succeeded so we cannot release the sequence as unused -
+		// unless the timeout was met while preparing the update (e.g. reserving a sequence), before any write
+		if !base.IsTimeoutError(err) || failedBeforeWrite {
 			if docSequence > 0 {
 				if seqErr := db.sequences().releaseSequence(ctx, docSequence); seqErr != nil {
 					base.WarnfCtx(ctx, "Error returned when releasing sequence %d. Falling back to skipped sequence handling.  Error:%v", docSequence, seqErr)
